@@ -122,7 +122,7 @@ CHECKS = {
         "runs": {"quick": 80000, "thorough": 10000000},
         "chunk": 4000, "run_timeout_s": 20, "mem_limit_mb": 6144,
         "rule": "each run picks a source set (a program or template of the repository's comparison corpus with its .dir companions - programs are given the standard-library subset of the repository's own comparison command, sim/stdpkgs, so that they reach the type checker and the emitter -, a generated template set, file tree with extends/import/render graphs, skeleton program with a sub-package, concurrent program, module of 2-6 packages with a drawn import graph (cycles, diamonds, missing packages), or a soup of delimiters), stores it on the simulated disk (directories are listed by the disk; go.mod present for programs), lets the disk damage one stored file (truncation at a drawn offset, 1-3 byte runs replaced from a delimiter/keyword dictionary, insertion, stale/new splice with another corpus file, duplicated block, short truncation plus delimiter such as `{##`, deleted block; 10% undamaged), optionally injects one I/O fault, draws the token channel capacity (default 20, 0, 1, 3), the FS kind and NoParseShortShowStmt, and builds inside a synctest bubble. "
-                "Generated file trees and package graphs are built undamaged half of the time. Workers run under a 6 GB address-space limit and a 64 MB stack limit, so that a build that allocates gigabytes or recurses without bound kills its worker at once (a crash attributed to the run). counters source.<kind> / built.<kind> show how many sources of each kind were offered and how many built. evaluations = builds; distinct_nontrivial = distinct (source, damaged file, damage) triples",
+                "Generated file trees and package graphs are built undamaged half of the time. Workers run under a 6 GB address-space limit and a 256 MB stack limit, so that a build that allocates gigabytes or recurses without bound kills its worker at once (a crash attributed to the run). counters source.<kind> / built.<kind> show how many sources of each kind were offered and how many built. evaluations = builds; distinct_nontrivial = distinct (source, damaged file, damage) triples",
         "components": {"real": ["scriggo.Build / BuildTemplate incl. lexer goroutine, parser, template expansion, type checker, emitter", "Disassemble, UsedVars of successful builds", "io/fs.ReadFile"],
                        "stub": ["storage: in-memory recording fs.FS with damage and I/O faults", "lexer/parser token channel capacity (guarded hook SetSimTokenChanCap)", "goroutine accounting by testing/synctest (quiescence, blocked-goroutine detection)"]},
         "engine": "buildsim", "design_ref": "DESIGN.md section 5, C04",
